@@ -589,7 +589,12 @@ def check_prune(ctx, ex, p, drv, loop, F, R, Scur, cand, Fnew, m, M, t, tcode, f
                 aa = single_atom(av.nf) if isinstance(av, Num) and av.nf is not None else None
                 ok_app = aa is not None and aa.kind == "app" and aa.args[0] == "idx" and nf_equal(aa.args[1], Scur) and aa.args[2][0][0] == "mask" and any(c.key in aa.args[2][0][1] for _, c in opt_masks)
                 ctx.check(ok_app, "C03.f PRUNE-DIST", "delay-line|content", dl["append"].loc(), "each iteration appends exactly the starts its saving mask pruned", found=repr(R(av.nf)) if isinstance(av, Num) else repr(av))
-                ctx.check("invert" in mk, "C03.f PRUNE-DIST", "delay-line|removal", dl["pop"].loc(), "the popped starts are removed by value (~np.isin)", found=mk[:160])
+                j_ = mk.find("isin(")
+                fa_ = mk[j_ + 5:] if j_ != -1 else ""
+                # the mask is membership of each CANDIDATE in the popped set: np.isin(candidates, popped), inverted; the
+                # candidates at this point may already have been filtered by the length mask (a filtered view of S)
+                first_ok = fa_.startswith(repr(Scur)) or fa_.startswith("[" + repr(Scur)) or fa_.startswith("idx(" + repr(Scur)) or fa_.startswith("[idx(" + repr(Scur))
+                ctx.check("invert" in mk and first_ok, "C03.f PRUNE-DIST", "delay-line|removal", dl["pop"].loc(), "the popped starts are removed by value (~np.isin(candidates, popped))", found=mk[:160])
                 dist = dl["delay"] + 1
                 gap = (dist - m).as_const()
                 ctx.check(gap is not None and gap >= 0, "C03.f PRUNE-DIST", "delay", dl["pop"].loc(), "a saving-based pruning decided at step t takes effect m steps later at the earliest", found=f"delay {dl['delay']!r} => distance {dist!r}", expected=f">= {m!r}")
